@@ -2,6 +2,7 @@ package main
 
 import (
 	"bytes"
+	"io"
 	"os"
 	"path/filepath"
 
@@ -30,3 +31,9 @@ func c13assemble(g *Gen) {
 }
 
 func c13assembleText(w *bytes.Buffer, f *generator.File) { generator.AssembleGolangFile(w, f) }
+
+func c15Dup(s *generator.SnippetWriter, w io.Writer) *generator.SnippetWriter { panic("v1 has no Dup") }
+func c15Append(s *generator.SnippetWriter, r io.Reader) error                 { panic("v1 has no Append") }
+func c15Merge(s *generator.SnippetWriter, r io.Reader, o *generator.SnippetWriter) error {
+	panic("v1 has no Merge")
+}
